@@ -333,6 +333,63 @@ pub struct Pgcat {
     pub t_spawn: u64,
 }
 
+thread_local! {
+    static STARVATION: std::cell::Cell<(u64, u64)> = std::cell::Cell::new((0, 0));
+}
+
+thread_local! {
+    static RT_PROBES: std::cell::RefCell<Option<Vec<Arc<std::sync::atomic::AtomicU64>>>> = std::cell::RefCell::new(None);
+}
+
+/// From now on every pooler this thread starts gets a responsiveness probe: an admin connection that
+/// asks `SHOW VERSION` every 15 ms and remembers the longest round trip. It measures, end to end, how
+/// long a trivial request takes through a harness thread, the loopback and a pooler task, i.e. how much
+/// the machine delays both sides at that moment.
+pub fn rt_probes_begin() {
+    RT_PROBES.with(|p| *p.borrow_mut() = Some(vec![]));
+}
+
+/// Longest probe round trip (ms) over the poolers started by this thread since rt_probes_begin().
+pub fn rt_probes_end() -> u64 {
+    RT_PROBES.with(|p| p.borrow_mut().take()).unwrap_or_default().iter().map(|a| a.load(Ordering::SeqCst)).max().unwrap_or(0)
+}
+
+fn start_rt_probe(p: &Pgcat) {
+    let slot = RT_PROBES.with(|r| {
+        r.borrow_mut().as_mut().map(|v| {
+            let a = Arc::new(std::sync::atomic::AtomicU64::new(0));
+            v.push(a.clone());
+            a
+        })
+    });
+    if let Some(slot) = slot {
+        let addr = p.addr();
+        let _ = std::thread::Builder::new().name("rt-probe".into()).spawn(move || {
+            let mut c = match Conn::connect(&addr, &StartupOpts::new(ADMIN_USER, "pgcat", ADMIN_PASS)) {
+                Ok(c) => c,
+                Err(_) => return,
+            };
+            while Arc::strong_count(&slot) > 1 {
+                let t0 = now_ns();
+                let r = c.query("SHOW VERSION", 5000);
+                let ms = (now_ns() - t0) / 1_000_000;
+                if r.is_ok() || ms >= 4900 {
+                    slot.fetch_max(ms, Ordering::SeqCst);
+                }
+                if r.is_err() {
+                    return;
+                }
+                std::thread::sleep(std::time::Duration::from_millis(15));
+            }
+        });
+    }
+}
+
+/// (run-queue wait ms, lifetime ms) summed over the poolers this thread has dropped since the last call.
+pub fn take_starvation() -> (u64, u64) {
+    STARVATION.with(|c| c.replace((0, 0)))
+}
+
 pub fn free_port() -> u16 {
     // ports from a private range below the kernel's ephemeral range (32768..), derived from
     // pid + a process-wide counter (no two cells of one run get the same one); verified by binding
@@ -372,7 +429,10 @@ impl Pgcat {
             let port = free_port();
             let toml = cfg.to_toml(port);
             match Pgcat::start_raw(&toml, port, opts) {
-                Ok(p) => return Ok(p),
+                Ok(p) => {
+                    start_rt_probe(&p);
+                    return Ok(p);
+                }
                 Err(StartErr::Exited(code, log)) => {
                     if log.contains("Listener socket error") {
                         last = Some(StartErr::Exited(code, log));
@@ -656,6 +716,20 @@ impl Pgcat {
         0
     }
 
+    /// Time (ms) the pooler's threads spent runnable but waiting for a CPU (sum over its threads,
+    /// /proc/<pid>/task/*/schedstat field 2): how much the machine starved the pooler.
+    pub fn run_delay_ms(&self) -> u64 {
+        let mut ns = 0u64;
+        if let Ok(rd) = std::fs::read_dir(format!("/proc/{}/task", self.child.id())) {
+            for e in rd.flatten() {
+                if let Ok(s) = std::fs::read_to_string(e.path().join("schedstat")) {
+                    ns += s.split_whitespace().nth(1).and_then(|v| v.parse::<u64>().ok()).unwrap_or(0);
+                }
+            }
+        }
+        ns / 1_000_000
+    }
+
     pub fn rss_kb(&self) -> u64 {
         if let Ok(s) = std::fs::read_to_string(format!("/proc/{}/status", self.child.id())) {
             for l in s.lines() {
@@ -678,6 +752,12 @@ impl Drop for Pgcat {
             }
         }
         if self.alive() {
+            let d = self.run_delay_ms();
+            let w = (now_ns().saturating_sub(self.t_spawn)) / 1_000_000;
+            STARVATION.with(|c| {
+                let v = c.get();
+                c.set((v.0 + d, v.1 + w));
+            });
             let _ = self.child.kill();
         }
         let _ = self.child.wait();
